@@ -111,6 +111,33 @@ class Oracle(object):
     def family(self, h):
         return O.laue_orbit(self.pg, h)
 
+    # vectorised Laue-orbit arithmetic (exact: int64)
+    def _pgarr(self):
+        if not hasattr(self, "_PG"):
+            P = np.array(self.pg, dtype=np.int64)
+            self._PG = np.concatenate([P, -P])
+        return self._PG
+
+    def images(self, H):
+        """all Laue images of the rows of H: array (n, 2|P|, 3)"""
+        H = np.asarray(H, dtype=np.int64).reshape(-1, 3)
+        return np.einsum("ni,gij->ngj", H, self._pgarr())
+
+    def family_keys(self, H):
+        """one integer per row identifying its Laue family (the lexicographically smallest image, encoded)"""
+        im = self.images(H)
+        if im.shape[0] == 0:
+            return np.zeros(0, dtype=np.int64)
+        off, B = 1 << 15, 1 << 16
+        code = ((im[..., 0] + off) * B + (im[..., 1] + off)) * B + (im[..., 2] + off)
+        return code.min(axis=1)
+
+    @staticmethod
+    def decode(key):
+        off, B = 1 << 15, 1 << 16
+        key = int(key)
+        return (key // (B * B) - off, (key // B) % B - off, key % B - off)
+
 
 def call_lib(fn, *a, **k):
     try:
